@@ -147,9 +147,10 @@ SplitF(gr, c, on) ==
 
 \* promotions derive from the current merge candidates; listed by concept id; a promotion is
 \* [cid, members, w]
-PromoSeq(e, m) ==
+\* (the attachment weight is a GEL edge weight like any other: inside the configured clamp bounds - repo fix for C18)
+PromoSeq(e, m, c) ==
     LET cs == MergeCands(e, m)
-        S == {[cid |-> ConceptOf(MinOf(cs[i].nodes)), members |-> cs[i].nodes, w |-> m.attach] : i \in 1..Len(cs)}
+        S == {[cid |-> ConceptOf(MinOf(cs[i].nodes)), members |-> cs[i].nodes, w |-> Clamp(m.attach, c.lo, c.hi)] : i \in 1..Len(cs)}
         Lt(x, y) == x.cid < y.cid
     IN SortBy(S, Lt)
 PromoInAlphabet(e, m) == LET cs == MergeCands(e, m) IN \A i \in 1..Len(cs) : MinOf(cs[i].nodes) \in Base
@@ -164,7 +165,7 @@ ApplyPromos(gr, ps) == IF ps = <<>> THEN gr ELSE ApplyPromos(ApplyPromoF(gr, Hea
 
 PromoteF(gr, c, on) ==
     IF ~on THEN Gated(gr, [op |-> "promote", gate |-> FALSE, promos |-> <<>>])
-    ELSE LET ps == Take(PromoSeq(gr.edges, c.mt), c.mt.pcap)
+    ELSE LET ps == Take(PromoSeq(gr.edges, c.mt, c), c.mt.pcap)
          IN [g |-> ApplyPromos(gr, ps), exact |-> PromoInAlphabet(gr.edges, c.mt),
              obs |-> [op |-> "promote", gate |-> TRUE, promos |-> ps]]
 
@@ -179,7 +180,7 @@ TurnF(gr, c, on, items, fm, fs, fp) ==
              g3 == IF fm THEN [r2.g EXCEPT !.merges = r2.g.merges \o Take(cs, c.mt.mcap)] ELSE r2.g
              ss == SplitCands(g3.edges, c.mt)
              g4 == IF fs THEN [g3 EXCEPT !.splits = g3.splits \o Take(ss, c.mt.scap)] ELSE g3
-             ps == IF fp /\ fm THEN Take(PromoSeq(g4.edges, c.mt), c.mt.pcap) ELSE <<>>
+             ps == IF fp /\ fm THEN Take(PromoSeq(g4.edges, c.mt, c), c.mt.pcap) ELSE <<>>
          IN [g |-> ApplyPromos(g4, ps),
              exact |-> r1.exact /\ r2.exact /\ ((fp /\ fm) => PromoInAlphabet(g4.edges, c.mt)) /\ ~MergeAmbiguous(cs),
              obs |-> [op |-> "turn", gate |-> TRUE, items |-> items, flags |-> <<fm, fs, fp>>,
@@ -242,10 +243,9 @@ SpecD == Init /\ [][DepthA /\ Next]_vars
 -----------------------------------------------------------------------------
 (* C18 clauses *)
 E == g.edges
-\* co-activation edges stay inside the clamp; attachment edges inside the attach range [-1, 1].
+\* every GEL edge weight - co-activation and concept attachment alike - stays inside the clamp.
 \* The validator requires clamp_min <= 0 <= clamp_max, so decay (towards 0) cannot leave the range.
-WithinClamp == \A k \in DOMAIN E :
-    IF E[k].rel = "coact" THEN InClamp(E[k].w, cfg) ELSE Abs(E[k].w) <= D
+WithinClamp == \A k \in DOMAIN E : InClamp(E[k].w, cfg)
 
 OneEdgePerUnorderedPair ==
     /\ \A k \in DOMAIN E : k[1] <= k[2]
@@ -292,7 +292,7 @@ MaintenanceOnlyAnnotatesOrAttaches ==
             /\ \A k \in Touched : g'.edges[k].rel = "concept" /\ (k[1] \in g'.nodes \/ k[2] \in g'.nodes)]_vars
 
 PromotionIdempotent ==
-    LET ps == PromoSeq(E, cfg.mt) IN
+    LET ps == PromoSeq(E, cfg.mt, cfg) IN
     PromoInAlphabet(E, cfg.mt) => \A i \in 1..Len(ps) : ApplyPromoF(ApplyPromoF(g, ps[i]), ps[i]) = ApplyPromoF(g, ps[i])
 
 GateOffUntouched == [][(~gate /\ last'.op # "gate") => g' = g]_vars
